@@ -59,6 +59,12 @@ def run(ctx):
         # decorator wraps the call
         ('<%! \ndef deco(fn):\n    def go(context, *a, **k):\n        context.write("<")\n        fn(*a, **k)\n        context.write(">")\n        return ""\n    return go\n%><%def name="f()" decorator="deco">F</%def>${f()}',
          "<F>", "decorator"),
+        # a decorator may forward other arguments than it received, and call the def more than once
+        ('<%! \ndef up(fn):\n    def go(context, name, *a, **k):\n        return fn(name.upper(), *a, **k)\n    return go\ndef twice(fn):\n    def go(context, n):\n        fn(n)\n        fn(n + 1)\n        return ""\n    return go\n%>'
+         '<%def name="hello(name, mark=\'?\')" decorator="up">hello ${name}${mark}</%def><%def name="num(n)" decorator="twice">[${n}]</%def>${hello("bob")}|${hello("al", mark="!")}|${num(1)}',
+         "hello BOB?|hello AL!|[1][2]", "decorator-forwards-arguments"),
+        ('<%! \ndef up(fn):\n    def go(context, name):\n        return fn(name.upper())\n    return go\n%><%def name="outer()"><%def name="inner(name)" decorator="up">in ${name}</%def>${inner("x")}</%def>${outer()}',
+         "in X", "decorator-inline"),
         # call with content: attributes as keyword arguments (literal text, expressions, mixtures in order)
         ('<%def name="f(a, b, c)">${a}|${b}|${c}|${type(b).__name__}</%def><%self:f a="lit" b="${1+1}" c="x${str(2)}y${str(3)}z"></%self:f>', "lit|2|x2y3z|int", "attr-values"),
         # caller.body with arguments, zero or several times; nested defs of the call
